@@ -1043,7 +1043,15 @@ func lazyBatches(tier string) int {
 	return 4
 }
 
-// family of batch b: pipeline | ties | split | lazyarg
+// numeric arguments at the ends of the int range (extremes.go), appended after the lazyarg batches
+func extBatches(tier string) int {
+	if tier == "thorough" {
+		return 8
+	}
+	return 2
+}
+
+// family of batch b: pipeline | ties | split | lazyarg | extremes
 func familyOf(tier string, b int) string {
 	switch {
 	case b < pipelineBatches(tier):
@@ -1052,8 +1060,10 @@ func familyOf(tier string, b int) string {
 		return "ties"
 	case b < pipelineBatches(tier)+tieBatches(tier)+splitBatches(tier):
 		return "split"
+	case b < pipelineBatches(tier)+tieBatches(tier)+splitBatches(tier)+lazyBatches(tier):
+		return "lazyarg"
 	}
-	return "lazyarg"
+	return "extremes"
 }
 
 // familyKeysSeen: violation keys of the appended families this worker process has minimised.
@@ -1199,7 +1209,7 @@ func main() {
 	vrt.Main(vrt.Config{
 		Property: "C12",
 		Batches: func(tier string) int {
-			return pipelineBatches(tier) + tieBatches(tier) + splitBatches(tier) + lazyBatches(tier)
+			return pipelineBatches(tier) + tieBatches(tier) + splitBatches(tier) + lazyBatches(tier) + extBatches(tier)
 		},
 		Cases: func(tier string, b int) int {
 			switch familyOf(tier, b) {
@@ -1213,6 +1223,11 @@ func main() {
 					return 10000
 				}
 				return 2500
+			case "extremes":
+				if tier == "thorough" {
+					return 6000
+				}
+				return 1500
 			}
 			if b >= pipelineBatches(tier) { // tie cases run ~60 library calls each
 				if tier == "thorough" {
@@ -1232,12 +1247,14 @@ func main() {
 					runCase(w, i)
 				case "ties":
 					runTieCase(w, i)
+				case "extremes":
+					runExtCase(w, i)
 				default:
 					runFamilyCase(w, i, fam)
 				}
 			}
 		},
-		Rule: "PIPELINE CASES (first 32 / 256 batches). case = PRNG pipeline spec: a source (instrumented iterator / iterator.Generate / instrumented list.Generate|GenerateFrom|Recurrence / list.Collect|iterator.ToList of an instrumented iterator / every plain constructor of Iterator, List, Seq) over an input of length 0,1,2..64 (sequential, sorted-with-repeats, random or few-valued ints) or unbounded, followed by 1..6 abstract stages (0 stages for 1/14 of the list sources: the constructor itself is consumed) (map, filter, filterMap, flatMap, take, drop, takeWhile, dropWhile, span-both, partition-both, prepend, append, zipWithIndex, zip, zip3, scan, tap, reverse, sort, pull, world hop, and the self-operand stages list.Zip(l.Tail^j, l) / Zip(l, l.Tail^j), list.Zip3(l, l.Tail, l.Tail.Tail), list.Combine(l, l.Tail^j) that use one lazy list several times at different offsets) each realised by one of the library's spellings for the current world (Iterator method / iterator.* / list.* / fp.Seq method / seq.*; stages a world lacks go through the iterator and back), consumed either by demanding the first k elements (k in {0,1,2,n/2,n,n+3,m/2,m,m+3}; optionally one more HasNext/NonEmpty; list walker with or without the last Tail) or by one terminal operation (ToSeq family, Count, Fold/FoldLeft/FoldRight/FoldTry/FoldOption/FoldError/FoldMap/Fold*UsingMap, Reduce over a sum, an affine-composition and a string monoid, GroupBy, Min/Max under the natural order and under an order by |x| mod m built five ways (ties), ToMap/ToSet/ToGoMap/ToGoSet, Sort, Exists/ForAll/Find, MakeString, Foreach, All, Duplicate). When the final value is a List, 70% of the demand cases and 35% of the terminal cases first consume it through an ACCESS SCRIPT: a PRNG sequence of Head/IsEmpty/NonEmpty/Unapply/Tail calls on cells addressed by (table, position) of 9 kinds (all Tails then the last Head; all Tails then Heads ascending / descending / random order / with a stride; a cell's head after its successor's; two interleaved traversals 1..3 cells apart; a second traversal forking off in the middle; random calls over three tables) that stays within the demand k (+ peek) of the case and takes Tail only from cells that are non-empty in the reference. Oracles: output = plain-slice reference (which must itself equal the pull-model reference); under an access script the cell at position i holds element i of the reference whatever the order of demands; fold callbacks budgeted with len(input) calls; pulls of the instrumented source <= pulls of the pull model in which every stage holds one pre-computed output + S (Iterator) or 2S+2 (List), S = number of library stages - checked after the access script and again after the head-first walk; each cell of the instrumented list evaluated at most once; running the same access script again, a second and an interleaved traversal of the same list value evaluate nothing again (no source pull, no callback, no cell); Min/Max under an order with ties return an element of extreme key and exactly the element seq.Min/seq.Max return on the same elements. distinct_nontrivial counts distinct (source, sequence of library call sites, consumer) fingerprints of cases with >= 2 library stages, input length >= 2 (or unbounded) and a non-empty expected output, plus the distinct tie cases with at least one duplicate key. TIE CASES (last 4 / 16 batches). case = 0..48 records {Key, ID=position} over 1..4 distinct keys (one key, all distinct, sorted runs, random), one of 6 Seq / 12 Iterator / 12 List constructors for the three spellings, an Ord by Key (5 constructions, ascending or descending), a predicate on Key. Every element-selecting operation is run as seq.*, iterator.*, list.* on the same elements and compared including the ID: Min, Max, ToSet under a Hashable by Key (must be a correct answer, and the iterator / list spelling must return the element the seq spelling returns: tie-choice), Find (first match), GroupBy (groups in input order), ToMap/ToGoMap (last wins), Filter/FilterNot/FilterMap/Partition/Span/TakeWhile/DropWhile (input order), Fold/FoldLeft/FoldRight (elements in order), Reduce/FoldMap with the monoids 'first of maximal key' and 'last of minimal key', Sort (sorted permutation; stability not demanded); FoldRight also with a fold function that forces its lazy argument twice (len(input) call budget). INTERLEAVED CASES (8 / 32 batches after the tie batches, split.go). case = a finite source of 0..400 ints (55%: the instrumented iterator itself, else any finite constructor of the three worlds followed by 0..2 stages; a final List / Seq is turned into an iterator by iterator.FromList / List / seq.Iterator / FromSeq / FromSlice / Of), handed to a tree of 1..3 multi-result combinators iterator.Duplicate / Span / Partition (an output is split again in 22% of the cases: 2..4 outputs) with predicates from a palette of 13 (incl. sparse and run-shaped ones: |x|%12==11, |x|%16!=0, |x|%32==5, (|x|/10)%2==0, (|x|/33)%2==0), every output read as an Iterator (HasNext/Next or NextOption) or through a lazy List built on it (list.Collect, iterator.ToList), and a SCHEDULE (pure data): (side, next n | next n without HasNext | peek = HasNext/NonEmpty only | drain) of 5 kinds - leadLag (rounds: the leader gets 1..8 source elements ahead, the other output reads 1..5, the leader runs ahead by d in {0,1,7,8,9,15,16,17,31,32,33,64,65} source elements, the lagging output catches up completely / by 1..5 / overtakes by 1..9 so that the roles swap; new pair of outputs now and then), random (chunks from {1,..,5,7,8,9,15,16,17,31,32,33,64,65}), alternate (fixed chunk per output), burst (one leadLag round), sequential (control) - always closed by draining every output in PRNG order. Oracles: every output delivers exactly its plain-slice reference (TakeWhile/DropWhile/Filter/complement along its path), element by element in order whatever the schedule; HasNext/NonEmpty/NextOption agree with the reference at every point and after exhaustion; with the instrumented iterator as direct source the pulls never exceed what the most advanced output needs when every stage holds one pre-computed output (+1 per tree level) and are never fewer than the delivered elements need (each element is pulled once); a List-backed output walked again evaluates nothing. Keys: <iterator.Duplicate|Span|Partition of the tree root>/interleaved-disagrees etc. LAZY-ARGUMENT CASES (4 / 16 batches at the end, lazyarg.go). case = a finite source of 0..200 ints in one of the three worlds, 0..2 stages (output <= 260), then seq.FoldRight / iterator.FoldRight / list.FoldRight with a fold function from a palette of 11 that forces its lazy.Eval argument never (Done(x)), once (returned as is, Get, Map), twice (Get in a condition and again in the result; Get in a condition and Map in the result; lazy.Map2(rest,rest); rest.FlatMap(..rest.Map..)), three times (all three values must be equal), or 0/1/2 times depending on the element; the returned Eval is forced 1..3 times. Oracles: every Get of the result = the plain right fold on the slice (call-by-need); the fold function is called at most len(input) times in total (vrt.Budget -> .../nontermination: exponential re-evaluation of the lazy argument trips it after len(input)+1 calls) and not for elements the result does not depend on (.../forces-undemanded-suffix). distinct_nontrivial also counts distinct interleaved cases with >= 9 elements in which the leading output changed at least once, and distinct lazy-argument cases with >= 2 elements.",
+		Rule: "PIPELINE CASES (first 32 / 256 batches). case = PRNG pipeline spec: a source (instrumented iterator / iterator.Generate / instrumented list.Generate|GenerateFrom|Recurrence / list.Collect|iterator.ToList of an instrumented iterator / every plain constructor of Iterator, List, Seq) over an input of length 0,1,2..64 (sequential, sorted-with-repeats, random or few-valued ints) or unbounded, followed by 1..6 abstract stages (0 stages for 1/14 of the list sources: the constructor itself is consumed) (map, filter, filterMap, flatMap, take, drop, takeWhile, dropWhile, span-both, partition-both, prepend, append, zipWithIndex, zip, zip3, scan, tap, reverse, sort, pull, world hop, and the self-operand stages list.Zip(l.Tail^j, l) / Zip(l, l.Tail^j), list.Zip3(l, l.Tail, l.Tail.Tail), list.Combine(l, l.Tail^j) that use one lazy list several times at different offsets) each realised by one of the library's spellings for the current world (Iterator method / iterator.* / list.* / fp.Seq method / seq.*; stages a world lacks go through the iterator and back), consumed either by demanding the first k elements (k in {0,1,2,n/2,n,n+3,m/2,m,m+3}; optionally one more HasNext/NonEmpty; list walker with or without the last Tail) or by one terminal operation (ToSeq family, Count, Fold/FoldLeft/FoldRight/FoldTry/FoldOption/FoldError/FoldMap/Fold*UsingMap, Reduce over a sum, an affine-composition and a string monoid, GroupBy, Min/Max under the natural order and under an order by |x| mod m built five ways (ties), ToMap/ToSet/ToGoMap/ToGoSet, Sort, Exists/ForAll/Find, MakeString, Foreach, All, Duplicate). When the final value is a List, 70% of the demand cases and 35% of the terminal cases first consume it through an ACCESS SCRIPT: a PRNG sequence of Head/IsEmpty/NonEmpty/Unapply/Tail calls on cells addressed by (table, position) of 9 kinds (all Tails then the last Head; all Tails then Heads ascending / descending / random order / with a stride; a cell's head after its successor's; two interleaved traversals 1..3 cells apart; a second traversal forking off in the middle; random calls over three tables) that stays within the demand k (+ peek) of the case and takes Tail only from cells that are non-empty in the reference. Oracles: output = plain-slice reference (which must itself equal the pull-model reference); under an access script the cell at position i holds element i of the reference whatever the order of demands; fold callbacks budgeted with len(input) calls; pulls of the instrumented source <= pulls of the pull model in which every stage holds one pre-computed output + S (Iterator) or 2S+2 (List), S = number of library stages - checked after the access script and again after the head-first walk; each cell of the instrumented list evaluated at most once; running the same access script again, a second and an interleaved traversal of the same list value evaluate nothing again (no source pull, no callback, no cell); Min/Max under an order with ties return an element of extreme key and exactly the element seq.Min/seq.Max return on the same elements. distinct_nontrivial counts distinct (source, sequence of library call sites, consumer) fingerprints of cases with >= 2 library stages, input length >= 2 (or unbounded) and a non-empty expected output, plus the distinct tie cases with at least one duplicate key. TIE CASES (last 4 / 16 batches). case = 0..48 records {Key, ID=position} over 1..4 distinct keys (one key, all distinct, sorted runs, random), one of 6 Seq / 12 Iterator / 12 List constructors for the three spellings, an Ord by Key (5 constructions, ascending or descending), a predicate on Key. Every element-selecting operation is run as seq.*, iterator.*, list.* on the same elements and compared including the ID: Min, Max, ToSet under a Hashable by Key (must be a correct answer, and the iterator / list spelling must return the element the seq spelling returns: tie-choice), Find (first match), GroupBy (groups in input order), ToMap/ToGoMap (last wins), Filter/FilterNot/FilterMap/Partition/Span/TakeWhile/DropWhile (input order), Fold/FoldLeft/FoldRight (elements in order), Reduce/FoldMap with the monoids 'first of maximal key' and 'last of minimal key', Sort (sorted permutation; stability not demanded); FoldRight also with a fold function that forces its lazy argument twice (len(input) call budget). INTERLEAVED CASES (8 / 32 batches after the tie batches, split.go). case = a finite source of 0..400 ints (55%: the instrumented iterator itself, else any finite constructor of the three worlds followed by 0..2 stages; a final List / Seq is turned into an iterator by iterator.FromList / List / seq.Iterator / FromSeq / FromSlice / Of), handed to a tree of 1..3 multi-result combinators iterator.Duplicate / Span / Partition (an output is split again in 22% of the cases: 2..4 outputs) with predicates from a palette of 13 (incl. sparse and run-shaped ones: |x|%12==11, |x|%16!=0, |x|%32==5, (|x|/10)%2==0, (|x|/33)%2==0), every output read as an Iterator (HasNext/Next or NextOption) or through a lazy List built on it (list.Collect, iterator.ToList), and a SCHEDULE (pure data): (side, next n | next n without HasNext | peek = HasNext/NonEmpty only | drain) of 5 kinds - leadLag (rounds: the leader gets 1..8 source elements ahead, the other output reads 1..5, the leader runs ahead by d in {0,1,7,8,9,15,16,17,31,32,33,64,65} source elements, the lagging output catches up completely / by 1..5 / overtakes by 1..9 so that the roles swap; new pair of outputs now and then), random (chunks from {1,..,5,7,8,9,15,16,17,31,32,33,64,65}), alternate (fixed chunk per output), burst (one leadLag round), sequential (control) - always closed by draining every output in PRNG order. Oracles: every output delivers exactly its plain-slice reference (TakeWhile/DropWhile/Filter/complement along its path), element by element in order whatever the schedule; HasNext/NonEmpty/NextOption agree with the reference at every point and after exhaustion; with the instrumented iterator as direct source the pulls never exceed what the most advanced output needs when every stage holds one pre-computed output (+1 per tree level) and are never fewer than the delivered elements need (each element is pulled once); a List-backed output walked again evaluates nothing. Keys: <iterator.Duplicate|Span|Partition of the tree root>/interleaved-disagrees etc. LAZY-ARGUMENT CASES (4 / 16 batches at the end, lazyarg.go). case = a finite source of 0..200 ints in one of the three worlds, 0..2 stages (output <= 260), then seq.FoldRight / iterator.FoldRight / list.FoldRight with a fold function from a palette of 11 that forces its lazy.Eval argument never (Done(x)), once (returned as is, Get, Map), twice (Get in a condition and again in the result; Get in a condition and Map in the result; lazy.Map2(rest,rest); rest.FlatMap(..rest.Map..)), three times (all three values must be equal), or 0/1/2 times depending on the element; the returned Eval is forced 1..3 times. Oracles: every Get of the result = the plain right fold on the slice (call-by-need); the fold function is called at most len(input) times in total (vrt.Budget -> .../nontermination: exponential re-evaluation of the lazy argument trips it after len(input)+1 calls) and not for elements the result does not depend on (.../forces-undemanded-suffix). distinct_nontrivial also counts distinct interleaved cases with >= 9 elements in which the leading output changed at least once, and distinct lazy-argument cases with >= 2 elements. EXTREMES CASES (2 / 8 batches at the end, extremes.go). case = (from, to, count, k, m, relation): the first 121 cases of a batch are every pair of the anchors {MinInt, MinInt+1, MinInt+2, -2, -1, 0, 1, 2, MaxInt-2, MaxInt-1, MaxInt} as (from, to); the others draw each number from the anchors (70%), small ints, or an anchor +-70 (saturating), or the second bound as the first plus a delta from {-65,-3..3,7,8,9,64,65,199,200,201,300,2^20}; the count is next to the input length, an anchor, or drawn the same way. Every integer-taking call site is run on it: iterator.Range / RangeClosed, list.Range / RangeClosed, list.GenerateFrom (finite of m cells and unbounded), list.Recurrence1 / Recurrence2 with the bounds as seeds and 7 wrapping relations, Iterator.Take / Drop over a slice, a list, a range and an unbounded generator, Seq.Take / Drop, seq/iterator/list.ZipWithIndex. Reference: plain Go with unsigned span arithmetic (Range empty when to <= from, RangeClosed when to < from, element i = from+i); outputs longer than 200 elements are only asked for their first k <= 40 elements. Oracles: a HasNext/Next resp. IsEmpty/Head/Tail walker compares element by element under a pull / cell budget of n+64 (surplus elements: /disagrees when the value ends, /nontermination when the budget is spent - no wall clock); on values the walker saw end: ToSeq, Count, Fold and Reduce (sum, fold function budgeted), seq.Collect, Foreach; on every value: Take(k).ToSeq(), list.Collect / iterator.ToList / iterator.FromList walked, ZipWithIndex, IsEmpty, a second walk of the same list value. Keys <site>[bound=MinInt|bound=MaxInt|negative-count]/<disagrees|nontermination|panic>. distinct_nontrivial also counts distinct (argument classes, k, m, relation) combinations of these cases.",
 		Assumptions: []string{
 			"callbacks are pure functions of their arguments (palettes of 8 functions, 8 predicates, 6 expanders, 4 partial functions, 3 scan functions)",
 			"pipeline elements are ints (ties: ints ordered by |x| mod m); tie cases use one record type {Key, ID int}; pipelines are PRNG samples, not an enumeration",
@@ -1245,6 +1262,7 @@ func main() {
 			"Tail() of an empty List is an empty List (list.Nil, list.Seq and fp.ListAdaptor all do that and list.Zip relies on it): the self-operand stages take l.Tail() up to 3 times without testing for emptiness; access scripts never take Tail of a cell that is empty in the reference",
 			"lazy.Eval is a trampoline without a result cache: an Eval that the USER's fold function builds from two uses of its lazy argument (lazy.Map2(rest, rest, ..), rest.FlatMap(.. rest.Map ..)) runs the Eval of the rest twice each time it is run, 2^n lazy.Run steps for n elements by construction of that value, although FoldRight calls the fold function once per element. Those two palette entries are used on <= 12 elements only; forcing by Get (any number of times) is used on up to 260 elements. The termination oracle counts calls of the fold function, not lazy.Run steps",
 			"interleaved cases: a schedule never reads one output from two goroutines; the lead of one output over another is measured in source elements strictly needed for what each output delivered",
+			"extremes cases: int is 64 bits wide and int arithmetic wraps (list.GenerateFrom hands its generator startIndex, startIndex+1, .. with wrap-around; recurrence relations wrap); Take(n) for n <= 0 is empty and Drop(n) for n <= 0 is the identity (what Iterator.Take/Drop do); Drop(MaxInt) is only used on finite sources",
 			"which of several Ord-equal extremes Min/Max return and which Eqv-equal representative ToSet keeps is defined by the eager seq.* computation on the same elements (the property's wording); seq.* itself is only required to return one of the correct answers",
 		},
 		Floors: func(tier string) map[string]int64 {
@@ -1301,6 +1319,16 @@ func main() {
 			}
 			for _, wn := range worldNames {
 				fl["hit.lazyarg:"+wn+".FoldRight"] = 500
+			}
+			// integer arguments at the ends of the int range
+			for k, v := range map[string]int64{"extremes.cases": 2500, "extremes.from.MinInt": 150, "extremes.from.MaxInt": 150, "extremes.to.MinInt": 150, "extremes.to.MaxInt": 150,
+				"extremes.from.nearMinInt": 150, "extremes.to.nearMaxInt": 150, "extremes.count.MinInt": 100, "extremes.count.MaxInt": 100, "extremes.count.negative": 100, "extremes.count.zero": 50,
+				"extremes.span.reversed": 500, "extremes.span.equal": 80, "extremes.span.singleton": 80, "extremes.span.overflows_int": 80, "extremes.span.huge": 100, "extremes.span.short": 300,
+				"extremes.both_bounds_within_2_of_an_end": 200, "extremes.nonempty_finite_range_ending_at_an_end": 50, "extremes.count_next_to_input_length": 300} {
+				fl[k] = v
+			}
+			for _, n := range extSites() {
+				fl["hit.extremes:"+n] = 1000
 			}
 			return fl
 		},
